@@ -125,7 +125,7 @@ class C15(Harness):
         for tname, (kw, vals) in type_table().items():
             for vi, v in enumerate(vals):
                 for level in ('instance', 'class'):
-                    for mode in ('all', 'subset', 'value', 'desersubset', 'emptysubset', 'twice'):
+                    for mode in ('all', 'subset', 'subsetiter', 'value', 'desersubset', 'emptysubset', 'twice'):
                         out.append({'t': tname, 'vi': vi, 'level': level, 'mode': mode})
         names = list(type_table())
         pairs = list(itertools.permutations(names, 2))
@@ -230,8 +230,8 @@ class C15(Harness):
             except Exception as e:
                 vs.append(V('roundtrip-raises', '%s: selective restore of %r raised %r' % (tname, v, e), exc=type(e).__name__, **key))
             return Result(vs, outcome=mode, hits={mode: 1})
-        subset = ['p'] if mode == 'subset' else None
-        self.roundtrip(param, X, target, {'p': v, 'other': 3}, subset, vs, key)
+        subset = ['p'] if mode in ('subset', 'subsetiter') else None
+        self.roundtrip(param, X, target, {'p': v, 'other': 3}, subset, vs, key, as_iterator=mode == 'subsetiter')
         return Result(vs, outcome=mode, hits={mode: 1})
 
     def std_json(self, text, vs, key):
@@ -240,11 +240,14 @@ class C15(Harness):
         except Exception as e:
             vs.append(V('not-standard-json', 'output is not standard JSON: %r (%r)' % (text[:200], e), **key))
 
-    def roundtrip(self, param, X, target, expect, subset, vs, key):
+    def roundtrip(self, param, X, target, expect, subset, vs, key, as_iterator=False):
+        give = (lambda: iter(subset)) if as_iterator else (lambda: subset)        # the subset may be any iterable of names, also a one-shot one
         try:
-            text = target.param.serialize_parameters(subset=subset) if subset else target.param.serialize_parameters()
+            text = target.param.serialize_parameters(subset=give()) if subset else target.param.serialize_parameters()
             self.std_json(text, vs, key)
-            kwargs = X.param.deserialize_parameters(text, subset=subset) if subset else X.param.deserialize_parameters(text)
+            kwargs = X.param.deserialize_parameters(text, subset=give()) if subset else X.param.deserialize_parameters(text)
+            if subset and set(kwargs) != set(subset):
+                vs.append(V('subset-leaks', 'subset=%r (%s) selected keys %r' % (subset, 'iterator' if as_iterator else 'list', sorted(kwargs)), **key))
             if subset:
                 extra = set(kwargs) - set(subset)
                 if extra or set(json.loads(text)) - set(subset):
